@@ -14,7 +14,7 @@ cp "$demo" "$dst/"
 git -C /repo worktree add -q --detach "$wt" HEAD || exit 2
 cp "$demo" "$wt/$pkg/"
 dn=$(basename "$demo")
-tn=$(grep -o 'func Test[A-Za-z0-9_]*' "$demo" | head -1 | sed 's/func //')
+tn=$(grep -o 'func Test[A-Za-z0-9_]*' "$demo" | sed 's/func //' | paste -sd'|' | sed 's/^/(/; s/$/)/')
 ( cd "$wt" && go test -vet=off -count=1 -timeout 300s -run "^$tn\$" ./$pkg/ > "$dst/demo_without.log" 2>&1 ); without=$?
 ( cd "$wt" && git apply "$dst/patch.diff" ) || { echo "patch does not apply"; git -C /repo worktree remove --force "$wt"; exit 2; }
 ( cd "$wt" && go build ./... > "$dst/build.log" 2>&1 ); build=$?
